@@ -51,20 +51,21 @@ type obsJob struct {
 }
 
 type harness struct {
-	ctx   *runner.Ctx
-	src   *choice.Source // the tape
-	wsrc  *choice.Source // workload decisions (the tape unless enumerating)
-	kind  storeKind
-	mode  string
-	enum  bool
-	wiped string // set once a replica of a multiplexed Tan store was wiped (RemoveNodeData / ImportSnapshot)
-	disk  *simfs.Disk
-	view  *simfs.View
-	db    raftio.ILogDB
-	model *RefStore
-	g     *gen
-	chk   *checker
-	pairs []raftio.NodeInfo
+	ctx         *runner.Ctx
+	src         *choice.Source // the tape
+	wsrc        *choice.Source // workload decisions (the tape unless enumerating)
+	kind        storeKind
+	mode        string
+	enum        bool
+	afterImport bool   // an ImportSnapshot was done and the store has not been reopened and checked since
+	wiped       string // set once a replica of a multiplexed Tan store was wiped (RemoveNodeData / ImportSnapshot)
+	disk        *simfs.Disk
+	view        *simfs.View
+	db          raftio.ILogDB
+	model       *RefStore
+	g           *gen
+	chk         *checker
+	pairs       []raftio.NodeInfo
 
 	memtable     uint64
 	strictCommit bool
@@ -557,6 +558,11 @@ func (h *harness) c09(oracle, detail string) {
 	h.violate("C09", oracle, "%s", detail)
 }
 
+func (h *harness) c09c20(oracle, detail string) {
+	h.ctx.Violate("C20", oracle, "log store after ImportSnapshot: %s", detail)
+	h.c09(oracle, detail)
+}
+
 // violate reports an oracle firing and ends the run: once the store and the
 // model have diverged nothing that follows means anything, whichever property
 // the run is counted for.
@@ -687,8 +693,20 @@ func (h *harness) doOp(op *wop) {
 			}
 			h.checkOthers(op)
 		}
+		if op.kind == opImport {
+			h.afterImport = true
+		}
 		if op.kind == opReopen || op.kind == opImport {
-			h.fullCheck(h.c09)
+			if h.afterImport {
+				// what the store holds right after an ImportSnapshot and after the
+				// restart that follows it is also what C20 is about
+				h.fullCheck(h.c09c20)
+			} else {
+				h.fullCheck(h.c09)
+			}
+		}
+		if op.kind == opReopen {
+			h.afterImport = false
 		}
 		h.queries()
 	}
@@ -1206,6 +1224,7 @@ func Run(ctx *runner.Ctx) *runner.Result {
 	}
 	h.g = newGen(w, h.model, h.pairs, big, batchy)
 	h.g.noWipeShared = ctx.Param("nowipe", "0") == "1"
+	h.g.importBias = ctx.Param("importbias", "0") == "1"
 	ctx.Ev("cfg", uint64(kind), uint64(len(h.pairs)), uint64(big), uint64(logSize), uint64(manifest), uint64(h.nOps))
 	ctx.Tracef("cfg store=%s mode=%s pairs=%v big=%d logsize=%d manifest=%d ops=%d", kind, h.mode, h.pairs, big, logSize, manifest, h.nOps)
 
